@@ -328,6 +328,13 @@ class Gen:
                 idx = [i for i, u in enumerate(v.ty[1]) if u == t]
                 self.count("tuple-index")
                 return "%s[%d]" % (v.name, r.choice(idx))
+            mv = self.visible(ctx, lambda v: isinstance(v.ty, tuple) and v.ty[0] == "blob"
+                              and any(is_fn(ft) and ft[2] == t and (not ctx.pure or ft[3]) for _, ft in self.blobs[v.ty[1]]))
+            if mv and r.random() < 0.7:
+                v = r.choice(mv)
+                f, ft = r.choice([(f, ft) for f, ft in self.blobs[v.ty[1]] if is_fn(ft) and ft[2] == t and (not ctx.pure or ft[3])])
+                self.count("method-call")
+                return "%s.%s(%s)" % (v.name, f, ", ".join(self.expr(a, ctx, d + 1, "arg") for a in ft[1]))
             bv = self.visible(ctx, lambda v: isinstance(v.ty, tuple) and v.ty[0] == "blob"
                               and any(ft == t for _, ft in self.blobs[v.ty[1]]))
             if bv:
@@ -478,7 +485,7 @@ class Gen:
             i = self.m()
             head += " ->«A%d|ret;%s» %s«|»«/A%d» do" % (i, "g" if ground(ret) else "n", ty_str(ret), i)
         self.scopes.append(list(params))
-        body = self.block(ctx, ind + "    ", self.r.randint(0, 1) if small else self.r.randint(1, 3), ret=ret, rec=rec)
+        body = self.block(ctx, ind + "    ", (0 if ctx.depth >= 3 else self.r.randint(0, 1)) if small else self.r.randint(1, 3), ret=ret, rec=rec)
         self.scopes.pop()
         return head + "\n" + "\n".join(body) + "\n" + ind + "end"
 
@@ -594,7 +601,11 @@ class Gen:
         if x < 0.86:
             self.count("assert")
             t = r.choice(BASE)
-            return ["%s%s <=> %s" % (ind, self.expr(t, ctx, 1, "operand"), self.expr(t, ctx, 1, "operand"))]
+            e = self.expr(t, ctx, 1, "operand")
+            if ctx.pure or r.random() < 0.8:
+                # the same expression on both sides (second copy without markers): the assertion holds
+                return ["%s%s <=> %s" % (ind, e, render(e))]
+            return ["%s%s <=> %s" % (ind, e, self.expr(t, ctx, 1, "operand"))]
         if x < 0.92:
             self.count("unused-expr")
             t = self.rand_type()
@@ -613,7 +624,9 @@ class Gen:
         if "blob" in self.features:
             for _ in range(r.randint(1, 2)):
                 name = self.fresh("B")
-                fields = [(self.fresh("f"), self.rand_type(1)) for _ in range(r.randint(1, 4))]
+                fields = [(self.fresh("f"), (self.rand_type(1) if r.random() < 0.8 or "hof" not in self.features
+                                             else fn([self.rand_type(2) for _ in range(r.randint(0, 1))], r.choice(BASE))))
+                          for _ in range(r.randint(1, 4))]
                 self.blobs[name] = fields
                 top.append("%s :: blob {\n%s}" % (name, "".join("    %s: %s,\n" % (f, ty_str(t)) for f, t in fields)))
         if "enum" in self.features:
